@@ -38,3 +38,8 @@ impl<V> IndexSet<V> {
             i >= self@.len() ==> r is None,
     { unimplemented!() }
 }
+
+// ---- std integer operations that realistic edits of this code reach for (trusted std contracts)
+pub assume_specification[ usize::pow ](a: usize, b: u32) -> (r: usize)
+    requires vstd::arithmetic::power::pow(a as int, b as nat) <= usize::MAX,
+    ensures r == vstd::arithmetic::power::pow(a as int, b as nat);
